@@ -1,10 +1,26 @@
 #!/bin/bash
-# Re-run every kept seeded change against the quick check of the property it breaks.
-# Usage: tools/regress_seeded.sh [id-prefix]      (prints one line per change; MISSED if the check stays quiet)
-cd /verif || exit 2
-for d in seeded/${1:-}*/; do
-  id=$(basename "$d")
+# Re-run every kept seeded change against the quick check of the property it breaks, in scratch worktrees of /repo
+# (never in /repo itself), four at a time.  Usage: tools/regress_seeded.sh [id-prefix]
+# prints one line per change: "<id> caught by <prop> [no-failing-input-found]" or "<id> MISSED by <prop>: …"
+V="$(cd "$(dirname "$0")/.." && pwd)"
+pre="${1:-}"
+run_one() {
+  d="$1"; id=$(basename "$d")
   prop=$(python3 -c "import json;print(json.load(open('$d/meta.json'))['breaks_property'])")
-  out=$(tools/try_mutant.sh "/verif/$d" "$prop" 2>&1)
-  if echo "$out" | grep -q "exit=1"; then echo "$id caught by $prop"; else echo "$id MISSED by $prop: $(echo "$out" | tail -1)"; fi
-done
+  wt=$(mktemp -d /tmp/regress_wt.XXXXXX); rmdir "$wt"
+  git -C /repo worktree add -q --detach "$wt" HEAD 2>/dev/null || { echo "$id ERROR worktree"; return; }
+  if git -C "$wt" apply "$d/patch.diff" 2>/dev/null; then
+    out=$(cd "$V" && DSW_REPO="$wt" VERIF_SEED=${VERIF_SEED:-0} ./check "$prop" --tier quick 2>&1); rc=$?
+    if [ $rc = 1 ]; then
+      nf=""; echo "$out" | grep VIOLATION | grep -vq no-failing-input-found || nf=" no-failing-input-found"
+      echo "$id caught by $prop$nf"
+    else
+      echo "$id MISSED by $prop: exit=$rc $(echo "$out" | tail -1)"
+    fi
+  else
+    echo "$id ERROR patch does not apply"
+  fi
+  git -C /repo worktree remove --force "$wt" 2>/dev/null
+}
+export -f run_one; export V
+ls -d "$V"/seeded/${pre}*/ | xargs -P 4 -I{} bash -c 'run_one {}' | sort
